@@ -306,8 +306,8 @@ func (c *simConn) Close() error {
 	return nil
 }
 
-func (c *simConn) LocalAddr() net.Addr              { return nil }
-func (c *simConn) RemoteAddr() net.Addr             { return nil }
+func (c *simConn) LocalAddr() net.Addr  { return nil }
+func (c *simConn) RemoteAddr() net.Addr { return nil }
 func (c *simConn) SetDeadline(t time.Time) error {
 	c.mu.Lock()
 	c.readArmed = !t.IsZero()
